@@ -1,6 +1,6 @@
 (* C14 dispatch table: wraps the C14 models in the uniform case interface. *)
 From Coq Require Import List ZArith NArith String Bool Arith.
-From AV Require Import Base.Codec Base.Bytes Model.C14_Ipc Model.C14_Avro.
+From AV Require Import Base.Codec Base.Bytes Model.C14_Ipc Model.C14_Avro Model.C14_Json.
 Import ListNotations.
 Local Open Scope string_scope.
 
@@ -96,9 +96,66 @@ Definition d_avro_vals (a : args) : list (list Z) :=
 Definition s_avro_vals (a : args) : list (list Z) :=
   let '(_, vals, st) := ocf_read [bytes_of (arg 0 a)] in [ vals; [st] ].
 
+
+(* ---- JSON tape decoder ---------------------------------------------------------------------
+   [batch_size; flatten] [input] [chunk boundaries] -> per successful decode call
+   (bytes consumed, num_buffered_rows, has_partial_record), rows of every flushed batch, status
+   (0 ok, 1 decode error, 2 flush error, 3 model out of fuel).  Driver: every chunk (also empty
+   ones) is handed to decode; when decode stops short the batch is flushed; flush at the end. *)
+Fixpoint json_chunk (bs : nat) (fl : bool) (fuel : nat) (t : tape) (rest : list N)
+  : tape * list Z * list Z * Z :=
+  match fuel with
+  | O => (t, [], [], 3%Z)
+  | S fuel =>
+    let '(t', rest', st) := jdecode bs fl (jfuel rest) t rest in
+    match st with
+    | JErr => (t', [], [], 1%Z)
+    | JOof => (t', [], [], 3%Z)
+    | JOk =>
+        let call := [Z.of_nat (List.length rest - List.length rest'); Z.of_nat (t_row t'); zb (has_partial t')] in
+        match rest' with
+        | [] => (t', call, [], 0%Z)
+        | _ :: _ =>
+            match jflush t' with
+            | None => (t', call, [], 2%Z)
+            | Some (rows, t'') =>
+                let '(t3, calls, fl3, s3) := json_chunk bs fl fuel t'' rest' in
+                (t3, (call ++ calls)%list, Z.of_nat rows :: fl3, s3)
+            end
+        end
+    end
+  end.
+Fixpoint json_chunks (bs : nat) (fl : bool) (t : tape) (chunks : list (list N)) : tape * list Z * list Z * Z :=
+  match chunks with
+  | [] => (t, [], [], 0%Z)
+  | c :: r =>
+      let '(t1, calls, fls, s) := json_chunk bs fl (List.length c + 2) t c in
+      if (s =? 0)%Z then
+        let '(t2, calls2, fls2, s2) := json_chunks bs fl t1 r in (t2, (calls ++ calls2)%list, (fls ++ fls2)%list, s2)
+      else (t1, calls, fls, s)
+  end.
+Definition d_json_calls (a : args) : list (list Z) :=
+  let bs := Z.to_nat (nth 0 (arg 0 a) 0%Z) in
+  let fl := negb (Z.eqb (nth 1 (arg 0 a) 0%Z) 0) in
+  let '(t, calls, fls, s) := json_chunks bs fl tape0 (chunks_of a 1 2) in
+  if negb (s =? 0)%Z then [calls; fls; [s]]
+  else match jflush t with
+       | None => [calls; fls; [2%Z]]
+       | Some (O, _) => [calls; fls; [0%Z]]
+       | Some (rows, _) => [calls; (fls ++ [Z.of_nat rows])%list; [0%Z]]
+       end.
+(* S: the rows flushed and the status do not depend on the chunking: the same input in one chunk *)
+Definition json_summary (r : list (list Z)) : list (list Z) :=
+  [ [fold_right Z.add 0%Z (nth 1 r [])]; nth 2 r [] ].
+Definition d_json_rows (a : args) : list (list Z) := json_summary (d_json_calls a).
+Definition s_json_rows (a : args) : list (list Z) :=
+  json_summary (d_json_calls [arg 0 a; arg 1 a; []]).
+
 Definition ops_C14 : list (string * opfun) :=
   [ ("c14.chunk.spec", s_chunk); ("c14.sweep.spec", s_sweep);
     ("c14.ipc_calls", d_ipc_calls);
     ("c14.ipc_events", d_ipc_events); ("c14.ipc_events.spec", s_ipc_events);
     ("c14.avro_ocf", d_avro_ocf);
-    ("c14.avro_vals", d_avro_vals); ("c14.avro_vals.spec", s_avro_vals) ].
+    ("c14.avro_vals", d_avro_vals); ("c14.avro_vals.spec", s_avro_vals);
+    ("c14.json_calls", d_json_calls);
+    ("c14.json_rows", d_json_rows); ("c14.json_rows.spec", s_json_rows) ].
